@@ -10,7 +10,9 @@ package main
 
 import (
 	"crypto/sha256"
+	"encoding/json"
 	"fmt"
+	"os"
 	"sort"
 	"strings"
 	"time"
@@ -22,6 +24,31 @@ import (
 )
 
 func main() { common.Main("C18", runC18) }
+
+// applyReplay: a replay file written by bin/check names the seed and tier of the run that failed; the harness is
+// deterministic for a seed, so replaying = running again with them.
+func applyReplay(ctx *common.Ctx) {
+	if ctx.Replay == "" {
+		return
+	}
+	b, err := os.ReadFile(ctx.Replay)
+	if err != nil {
+		return
+	}
+	var r struct {
+		Seed int64  `json:"seed"`
+		Tier string `json:"tier"`
+	}
+	if json.Unmarshal(b, &r) != nil {
+		return
+	}
+	if r.Seed != 0 {
+		ctx.Seed, ctx.Rng, ctx.Res.Seed = r.Seed, common.NewRng(r.Seed), r.Seed
+	}
+	if r.Tier == "quick" || r.Tier == "thorough" {
+		ctx.Tier, ctx.Res.Tier = r.Tier, r.Tier
+	}
+}
 
 // ---- users ----
 type user struct {
@@ -608,6 +635,7 @@ func (x *hs) viewAfterOwn(u int) (string, error) {
 }
 
 func runC18(ctx *common.Ctx) error {
+	applyReplay(ctx)
 	thorough := ctx.Tier == "thorough"
 	res := ctx.Res
 	res.Rule = "every command the parser knows x every protocol state (not authenticated, authenticated, selected, selected read-only, after CLOSE, after UNSELECT) on fresh connections of rotating users, " +
@@ -889,8 +917,8 @@ func (x *hs) jail(thorough bool) error {
 	good := att{3, "bob", "pw-bob"}
 	// every script: ... three consecutive failures (possibly from different connections), then one more attempt
 	scripts := [][]att{
-		{bad(1), bad(1), bad(1), good},                                 // same connection, 4th = valid credentials
-		{bad(1), bad(2), {2, "nobody", "pw-bob"}, bad(1)},              // three connections/kinds, 4th fails too
+		{bad(1), bad(1), bad(1), good},                                           // same connection, 4th = valid credentials
+		{bad(1), bad(2), {2, "nobody", "pw-bob"}, bad(1)},                        // three connections/kinds, 4th fails too
 		{bad(1), bad(1), {2, "alice", "pw-alice"}, bad(1), bad(1), bad(2), good}, // a success resets the count
 	}
 	if thorough {
